@@ -1254,6 +1254,15 @@ def substitute_equivalent(modules, log):
                 continue
             if ast.dump(base) == ast.dump(cur):
                 continue
+            import time as _time
+            from . import summ as _summ
+            ckey = _verdict_key(cur, base, nf.EXTRA_PURE_FUNCS, nf.EXTRA_PURE_SELF_METHODS)
+            cached = _verdict_load(ckey)
+            if cached is not None and not cached[0]:
+                # (only negative verdicts are reused: a positive one is re-proven, it licenses a substitution)
+                log.append((cached[2], q, cached[1]))
+                continue
+            _summ.DEADLINE[0] = _time.time() + equiv.PROOF_BUDGET_S
             try:
                 ok, why = equiv.functions_equivalent(cur, base)
                 if not ok and (nf.EXTRA_PURE_FUNCS or nf.EXTRA_PURE_SELF_METHODS):
@@ -1266,6 +1275,8 @@ def substitute_equivalent(modules, log):
                         nf.EXTRA_PURE_FUNCS, nf.EXTRA_PURE_SELF_METHODS = saved_p
             except Exception as e:      # the prover failing means "not proven", never "equivalent"
                 ok, why = False, "prover error: %r" % (e,)
+            finally:
+                _summ.DEADLINE[0] = None
             if ok:
                 first = min([cur.lineno] + [d.lineno for d in cur.decorator_list])
                 bfirst = min([base.lineno] + [d.lineno for d in base.decorator_list])
@@ -1273,11 +1284,69 @@ def substitute_equivalent(modules, log):
                 body[i] = base
                 log.append(("E", q, why))
             else:
+                _summ.DEADLINE[0] = _time.time() + equiv.PROOF_BUDGET_S / 2.0
                 try:
                     lok, _ = equiv.functions_loosely_equivalent(cur, base)
                 except Exception:
                     lok = False
+                finally:
+                    _summ.DEADLINE[0] = None
                 log.append(("E~" if lok else "E-no", q, why if not lok else "tables agree (not a proof)"))
+                _verdict_store(ckey, (False, log[-1][2], log[-1][0]))
+
+
+def _verdict_key(cur, base, pure_f, pure_m):
+    """Digest of everything a prover verdict depends on: both functions, the inferred purity sets, the prover's own source."""
+    import hashlib
+    h = hashlib.sha1()
+    h.update(ast.dump(cur).encode())
+    h.update(ast.dump(base).encode())
+    h.update(repr((sorted(pure_f), sorted(pure_m))).encode())
+    here = os.path.dirname(os.path.abspath(__file__))
+    for fn in ("equiv.py", "nf.py", "summ.py", "canon.py", "linform.py"):
+        try:
+            st = os.stat(os.path.join(here, fn))
+            h.update(("%s:%d:%d" % (fn, st.st_size, int(st.st_mtime))).encode())
+        except OSError:
+            pass
+    h.update(os.environ.get("VERIF_PROOF_BUDGET", "").encode())
+    return h.hexdigest()
+
+
+def _verdict_dir():
+    d = os.environ.get("VERIF_PROVER_CACHE")
+    if d == "":
+        return None
+    return d or os.path.join(os.environ.get("TMPDIR", "/tmp"), "verif_prover_cache")
+
+
+def _verdict_load(key):
+    """An optional on-disk memo of *negative* prover verdicts (a scratch directory; nothing depends on it being there)."""
+    d = _verdict_dir()
+    if not d:
+        return None
+    try:
+        import json
+        with open(os.path.join(d, key + ".json")) as fh:
+            v = json.load(fh)
+        return (bool(v[0]), str(v[1]), str(v[2]))
+    except (IOError, OSError, ValueError, IndexError):
+        return None
+
+
+def _verdict_store(key, val):
+    d = _verdict_dir()
+    if not d:
+        return
+    try:
+        import json
+        os.makedirs(d, exist_ok=True)
+        tmp = os.path.join(d, "%s.%d.tmp" % (key, os.getpid()))
+        with open(tmp, "w") as fh:
+            json.dump(list(val), fh)
+        os.replace(tmp, os.path.join(d, key + ".json"))
+    except (IOError, OSError):
+        pass
 
 
 def canonicalise(modules, baseline=None):
